@@ -73,6 +73,9 @@ type Model struct {
 	Disabled []string // call paths (with context) that were disabled
 	Problems []string
 	TopOuts  map[string]interface{}
+	// TopMapped: the top-level call is a map call; each TopOuts value is the
+	// collection (array / keyed map) of the forks' values of that output.
+	TopMapped bool
 	invByKey map[string]*StageInvocation
 	// Stage call paths inside a mapped pipeline call with an empty / null
 	// source whose bindings do not depend on that dimension (the runtime
@@ -427,6 +430,20 @@ func (m *Model) Run() {
 		m.problem("top call is not a pipeline")
 		return
 	}
+	if top.Map {
+		// A mapped top-level call: evaluate it as the only call of a
+		// nameless enclosing pipeline.  TopOuts then holds, per output, the
+		// collection of the forks' values.
+		m.invByKey = map[string]*StageInvocation{}
+		m.IndepOfEmpty = map[string]int{}
+		root := &Pipeline{Name: "", Calls: []*Call{top}}
+		outs, _, _, _ := m.evalCall(root, top, map[string]interface{}{}, nil, nil, map[string]*Type{},
+			map[string]map[string]interface{}{}, map[string]map[string]*Type{}, map[string]map[string]DepSet{}, map[string]map[string]DimSet{},
+			callCtx{path: ""})
+		m.TopOuts = outs
+		m.TopMapped = true
+		return
+	}
 	inputs := map[string]interface{}{}
 	for _, b := range top.Binds {
 		v, _ := m.evalExp(b.Exp, nil, nil, nil, nil)
@@ -559,6 +576,9 @@ func (m *Model) evalCall(pl *Pipeline, c *Call, inputs map[string]interface{}, i
 		return nil, nil, nil, nil
 	}
 	path := ctx.path + "/" + c.Name()
+	if ctx.path == "" {
+		path = c.Name() // the top-level call itself
+	}
 
 	ctxDeps := DepSet{}.addAll(ctx.deps, "")
 	ctxDims := DimSet{}.addAll(ctx.dims)
